@@ -97,6 +97,10 @@ func vfGenBackoff(rt *rapid.T) *vfBackoffCase {
 		if base > 0 && rapid.IntRange(0, 9).Draw(rt, "huge") == 0 {
 			step = rapid.IntRange(1000, 1<<62).Draw(rt, "hugestep")
 		}
+		if base == 0 && rapid.IntRange(0, 2).Draw(rt, "manyzero") == 0 {
+			// base 0: the delay never grows, the count is only bounded by what a loop over it may cost
+			step = rapid.SampledFrom([]int{1000, 1750, 1751, 2000, 50000, 1000000}).Draw(rt, "zerostep")
+		}
 		if r+step < r {
 			break
 		}
@@ -236,8 +240,42 @@ func vfCheckPayload(n int) string {
 	if !bytes.Equal(h, want[:]) {
 		return fmt.Sprintf("generatePayload(%d): hash %x, SHA-256 of the payload is %x", n, h, want)
 	}
+	// "generated payloads carry their SHA-256 hash": pairs handed out earlier still do after later calls
+	for _, k := range vfKept {
+		if w := sha256.Sum256(k.p); !bytes.Equal(k.h, w[:]) {
+			return fmt.Sprintf("a (payload, hash) pair returned by an earlier generatePayload(%d) no longer matches after generatePayload(%d): hash is now %x, SHA-256 of its payload is %x", len(k.p), n, k.h, w)
+		}
+	}
+	if n <= 1<<16 {
+		vfKept = append(vfKept, vfPair{p, h})
+		if len(vfKept) > 4 {
+			vfKept = vfKept[1:]
+		}
+	}
 	return ""
 }
+
+// vfPayloadCase: consecutive generatePayload calls; every pair is kept and re-checked after the later calls.
+type vfPayloadCase struct {
+	Property string `json:"property,omitempty"`
+	Kind     string `json:"kind"`
+	Sizes    []int  `json:"sizes"`
+	Failure  string `json:"failure,omitempty"`
+}
+
+func vfCheckPayloads(c *vfPayloadCase) string {
+	vfKept = nil
+	for _, n := range c.Sizes {
+		if f := vfCheckPayload(n); f != "" {
+			return f
+		}
+	}
+	return ""
+}
+
+type vfPair struct{ p, h []byte }
+
+var vfKept []vfPair
 
 type vfAnyCase struct {
 	Kind string `json:"kind"`
@@ -261,6 +299,12 @@ func TestC18Prober(t *testing.T) {
 			var c vfT4t7Case
 			hx.Load(p, &c)
 			if f := vfCheckT4T7(&c); f != "" {
+				t.Fatalf("replay: %s", f)
+			}
+		case "payload":
+			var c vfPayloadCase
+			hx.Load(p, &c)
+			if f := vfCheckPayloads(&c); f != "" {
 				t.Fatalf("replay: %s", f)
 			}
 		default:
@@ -301,12 +345,14 @@ func TestC18Prober(t *testing.T) {
 	rapid.Check(t, func(rt *rapid.T) {
 		switch rapid.IntRange(0, 9).Draw(rt, "which") {
 		case 0:
-			n := rapid.IntRange(1, 1<<16).Draw(rt, "payload")
-			if f := vfCheckPayload(n); f != "" {
-				hx.WriteReplay("C18", map[string]interface{}{"kind": "payload", "n": n, "failure": f})
+			c := &vfPayloadCase{Kind: "payload", Sizes: rapid.SliceOfN(rapid.IntRange(1, 1<<16), 1, 4).Draw(rt, "payloads")}
+			if f := vfCheckPayloads(c); f != "" {
+				st.Failed()
+				c.Failure, c.Property = f, "C18"
+				hx.WriteReplay("C18", c)
 				rt.Fatalf("%s", f)
 			}
-			st.Case(1, map[string]int{"payload": 1}, false, nil)
+			st.Case(len(c.Sizes), map[string]int{"payload": len(c.Sizes)}, false, nil)
 		case 1, 2, 3, 4:
 			c := vfGenBackoff(rt)
 			if f := vfCheckBackoff(c); f != "" {
